@@ -1,9 +1,12 @@
 (* C14 - no purge without consent: --dry-run and a negative answer change nothing.
-   Statements only; proofs in Proofs/EmptyProofs.v, Proofs/LogicProofs.v.
+   Statements only; proofs in Proofs/EmptyProofs.v, Proofs/LogicProofs.v, Proofs/DryRunOne.v, Proofs/DryRunAnnounce.v.
    `all_runs P m` quantifies over EVERY sequence of well-typed answers the environment can give to the
    operations of m (Prog.v): every trash content, every listing order, every error, every reply. *)
-From TV Require Import Prelude.Str Logic.Reply Prog.Prog Cmd.Put Cmd.Scan Cmd.Empty
-  Proofs.ProgProofs Proofs.EmptyProofs Proofs.LogicProofs World.World Proofs.WorldProofs Proofs.WorldPurge.
+From TV Require Import Prelude.Str Prelude.PosixPath Codec.TrashInfo Logic.Reply Prog.Prog Cmd.Put Cmd.Scan Cmd.Empty
+  Proofs.ProgProofs Proofs.EmptyProofs Proofs.LogicProofs World.World Proofs.WorldProofs Proofs.WorldPurge
+  Proofs.Independence Proofs.DryRunOne Proofs.DryRunAnnounce.
+From Coq Require Import List.
+Import ListNotations.
 Open Scope N_scope.
 
 (* trash-empty --dry-run issues no mutating operation at all (makedirs, exclusive create, write, close,
@@ -39,6 +42,47 @@ Theorem without_consent_the_world_is_unchanged : forall o,
                                   forall s s', wrun s t s' -> same s s') (empty_main o).
 Proof. exact no_consent_world_unchanged_lemma. Qed.
 Print Assumptions without_consent_the_world_is_unchanged.
+
+(* ---- what a dry run announces is what the real run goes for (DryRunAnnounce.v, on runs as a relation).  Per entry of info/: the
+   decision [ok_to_delete] is a program in which --dry-run does not occur; after the same decision [ok] the dry run prints "would remove"
+   for exactly [targets ok p] - the payload path and the info path of an approved entry, nothing for the others - and the real run probes
+   these paths in this order (all of them when the entry is worked through) and removes no other path.  The same for a payload without
+   .trashinfo. ---- *)
+Theorem decision_ignores_dry_run : forall o b p, ok_to_delete (with_dry o b) p = ok_to_delete o p.
+Proof. exact ok_to_delete_ignores_dry. Qed.
+Print Assumptions decision_ignores_dry_run.
+
+Theorem dry_run_announces_the_targets : forall o p t, eo_dry_run o = true -> run_of (empty_one_info o p) t (Done tt) ->
+  exists t_ok ok t_out, run_of (ok_to_delete o p) t_ok (Done ok) /\ t = t_ok ++ t_out /\
+                        map fst t_out = map would_remove (targets ok p).
+Proof. exact dry_run_announces_lemma. Qed.
+Print Assumptions dry_run_announces_the_targets.
+
+Theorem real_run_goes_for_the_targets : forall o p t out, eo_dry_run o = false -> run_of (empty_one_info o p) t out ->
+  (exists e, run_of (ok_to_delete o p) t (Uncaught e) /\ out = Uncaught e) \/
+  exists t_ok ok t_rest, run_of (ok_to_delete o p) t_ok (Done ok) /\ t = t_ok ++ t_rest /\
+    (forall x, In x (removal_paths t_rest) -> In x (targets ok p)) /\
+    (exists n, probed t_rest = firstn n (targets ok p)) /\
+    (out = Done tt -> probed t_rest = targets ok p).
+Proof. exact real_run_targets_lemma. Qed.
+Print Assumptions real_run_goes_for_the_targets.
+
+Theorem orphan_announced_and_targeted : forall o info_dir files_dir entry t out,
+  run_of (empty_orphan o info_dir files_dir entry) t out ->
+  exists r t_rest, t = (Prog.Exists (join2 info_dir (entry ++ s_trashinfo)), r) :: t_rest /\
+    match r with
+    | RBool true => t_rest = []
+    | RBool false =>
+        if eo_dry_run o then map fst t_rest = [would_remove (join2 files_dir entry)]
+        else (forall x, In x (removal_paths t_rest) -> x = join2 files_dir entry) /\ (out = Done tt -> probed t_rest = [join2 files_dir entry])
+    | _ => t_rest = []
+    end.
+Proof. exact orphan_announced_and_targeted_lemma. Qed.
+Print Assumptions orphan_announced_and_targeted.
+
+Example targets_of_an_approved_entry :
+  targets true ($"/t/info/a.trashinfo") = [$"/t/files/a"; $"/t/info/a.trashinfo"] /\ targets false ($"/t/info/a.trashinfo") = [].
+Proof. split; vm_compute; reflexivity. Qed.
 
 (* ---- non-vacuity: the monitor does reject something, and a denied run with a mutator is rejected ---- *)
 Example consent_rejects_mutator_after_no :
